@@ -1219,6 +1219,17 @@ func (f *frame) callsiteAsserts(name string, callee *ssa.Function, common *ssa.C
 		env := f.envAt(f.curBlock, f.curIdx, f.cur)
 		for i, n := range names {
 			if i < len(args) {
+				// a callee parameter name may shadow a variable of the function under contract:
+				// that variable stays reachable as caller_<name>
+				if old, ok := env.bound[n]; ok {
+					env.bound["caller_"+n] = old
+				} else if d, ok := env.derefs[n]; ok {
+					env.bound["caller_"+n] = TV{T: vc.load(env.state, d.cell, d.elem), Ty: goTy(d.elem)}
+				} else if env.lookup != nil {
+					if v, ok := env.lookup(n); ok {
+						env.bound["caller_"+n] = v
+					}
+				}
 				env.bound[n] = TV{T: args[i], Ty: goTy(argTypes[i])}
 			}
 		}
@@ -1494,6 +1505,29 @@ func (f *frame) appendOp(common *ssa.CallCommon, result ssa.Value, pos token.Pos
 				vc.inQuant--
 				// the new elements
 				src := f.val(al)
+				preApp := f.cur.clone()
+				defer func() {
+					// Derived ground instance (not an extra assumption: it follows from the stores below and the
+					// copied-prefix fact above, for q = 0): element 0 of a non-empty slice is element 0 of the
+					// result. Stated explicitly because chains of conditional appends otherwise need a 2^n case split.
+					resArr, resOff := Ite(inplace, arr, newobj), Ite(inplace, off, vc.idxLit(0))
+					// the same instance for q = the length at each earlier append of this (loop-free) function:
+					// the element appended there keeps its place
+					qs := []Term{vc.idxLit(0)}
+					if len(f.loops) == 0 {
+						qs = append(qs, f.appendLens...)
+						f.appendLens = append(f.appendLens, ln)
+					}
+					vc.leafPaths(elemT, nil, func(path []pathStep, ti *typeInfo, lt types.Type) {
+						mb := preApp.get(vc, vc.memName(ti))
+						ma := f.cur.get(vc, vc.memName(ti))
+						for _, q := range qs {
+							vc.assume(Implies(And(vc.le(vc.idxLit(0), q, true), vc.lt(q, ln, true)),
+								Eq(Select(ma, vc.applyPath(vc.elemAt(resArr, resOff, q), path), ti.sort),
+									Select(mb, vc.applyPath(vc.elemAt(arr, off, q), path), ti.sort))))
+						}
+					})
+				}()
 				tgtArr := vc.define(f.prefix+"_apparr", Ite(inplace, arr, newobj))
 				tgtOff := vc.define(f.prefix+"_appoff", Ite(inplace, vc.add(off, ln), ln))
 				for j := int64(0); j < k; j++ {
